@@ -32,6 +32,12 @@ type Fetch struct {
 	Stamp
 	Kind    string     `json:"kind"`  // att | prop | sync
 	Epoch   uint64     `json:"epoch"` // requested epoch
+	// When the request was made (the Stamp says when it was answered; they differ
+	// if the node was slow, see Node.Hold).
+	ReqSeq       int    `json:"req_seq"`
+	ReqAction    int    `json:"req_action"`
+	ReqPhase     string `json:"req_phase"`
+	ReqClockSlot uint64 `json:"req_clock_slot"`
 	Indices []uint64   `json:"indices"`
 	Version int        `json:"version"` // table version served
 	Err     bool       `json:"err"`
